@@ -51,6 +51,8 @@ pub fn c11_scenario() -> Scenario {
         // a syntax error of the document's own text (reported for the file whatever its place in the workspace)
         alphabet.push(Touch { doc: x, text: format!("class {n}4\n"), reopen: false });
     }
+    // the faulty file that is otherwise only on disk, open in the editor and emptied
+    alphabet.push(Touch { doc: "c.td", text: String::new(), reopen: false });
     Scenario {
         id: "C11",
         disk: vec![("a.td", "class DA;\n".into()), ("b.td", "class DB;\n".into()), ("c.td", "def cx : MissingC;\n".into())],
@@ -321,7 +323,7 @@ impl Engine for C11 {
     }
     fn rule(&self, tier: Tier) -> String {
         format!(
-            "every session of <= {} didOpen/didChange messages over two documents x 7 texts each (clean; a syntax error; faulty, twice: the same fault at the same byte offset on two different lines; includes the other document, twice: the include statement at two different places; includes a faulty file that is only on disk), \
+            "every session of <= {} didOpen/didChange messages over two documents x 7 texts each (clean; a syntax error; faulty, twice: the same fault at the same byte offset on two different lines; includes the other document, twice: the include statement at two different places; includes a faulty file that is only on disk) and a third document: that faulty file, open with an empty buffer, \
              the first message to a document being didOpen and later ones didChange, driven through the real server one message at a time to quiescence; after the last message of every session \
              (every session is a prefix of longer ones) the latest publication per URI must equal the diagnostics of the final state and be empty for URIs outside the final workspace; versions per URI never decrease. \
              In addition every schedule (controlled scheduler and lock model of C08, hook H3) of every scenario didOpen ; n1 [; n2 [; n3]] of <= {} open/change notifications \
